@@ -19,7 +19,7 @@ MANIFEST = dict(
          "that to all histories. Finding D7 is proved as a theorem about the shipped table (teardown delivered while facade is None) and "
          "reproduced on the real manager. Tie: translator + differential correspondence with the REAL GeckoAsyncSpaMan (locator.discover, "
          "GeckoAsyncSpa._connect, async_get_watercare and the facade constructor scripted) on the virtual loop, including calls parked at any "
-         "delivery/await while other calls run; direct monitors on the real manager. Session 4: every error scenario x reset origin is run on the real stack with a suspending client handler and the reset must land in IDLE; the guard `self._spa is not None` is part of the translated vocabulary (.spaSome). The order inside GeckoAsyncSpa.disconnect() is a theorem over its regenerated suspension skeleton (disconnect_order: announced before the spa cancels its own tasks, nothing suspends between that cancellation and the last clean-up step). every_started_phase_is_closed: over the regenerated skeletons, the FINISHED announcement is awaited on every exit of the locate / connect phase, cancellation at any await included (resource monitor, sound by releasedOnEveryExit_sound). A reset from another task while the sequence pump is suspended in the client`s facade-ready handler: phases closed, manager reconnects. Round 14: a user reset with a client whose disconnection handlers are slower than a discovery (genuine defect D16, fix 124e61a) - real stack.",
+         "delivery/await while other calls run; direct monitors on the real manager. Session 4: every error scenario x reset origin is run on the real stack with a suspending client handler and the reset must land in IDLE; the guard `self._spa is not None` is part of the translated vocabulary (.spaSome). The order inside GeckoAsyncSpa.disconnect() is a theorem over its regenerated suspension skeleton (disconnect_order: announced before the spa cancels its own tasks, nothing suspends between that cancellation and the last clean-up step). every_started_phase_is_closed: over the regenerated skeletons, the FINISHED announcement is awaited on every exit of the locate / connect phase, cancellation at any await included (resource monitor, sound by releasedOnEveryExit_sound). A reset from another task while the sequence pump is suspended in the client`s facade-ready handler: phases closed, manager reconnects. Round 14: a user reset with a client whose disconnection handlers are slower than a discovery (genuine defect D16, fix 124e61a) - real stack. Round 15: a monitor for the 'needs attention' row of the state table that does not go through the model (terminal errors delivered while a spa object exists).",
     note="Trusted: Lean kernel, translator (an unknown statement refuses), correspondence harness. The content of locate/connect is abstracted to its "
          "event sequence (C01/C06/C15). Theorems other than the delivery/status one are about calls that are not interleaved; interleavings are "
          "covered by correspondence + search to bounded depth. Locate/connect are assumed to be issued as the sequence pump does (one at a time, "
@@ -418,6 +418,10 @@ class Rig:
             entered = rec["pre_state"] != "CONNECTED" and post == "CONNECTED"
             if entered != rec.get("ready", False):
                 self.problems.append(("ready-iff-enter-connected", f"pre {rec['pre_state']} post {post} ready delivered {rec.get('ready', False)}"))
+            # the terminal errors of a connection (the state table's "needs attention" row), stated here independently of the model
+            if rec["op"] in ("rferr:1", "ev:ERROR_TOO_MANY_RF_ERRORS", "ev:ERROR_PROTOCOL_RETRY_COUNT_EXCEEDED", "ev:CONNECTION_PROTOCOL_RETRY_COUNT_EXCEEDED") \
+                    and rec["outcome"] == "done" and rec.get("pre_spa") and self.man._spa is not None and post != "ERROR_NEEDS_ATTENTION":
+                self.problems.append(("terminal-error-not-flagged", f"{rec['op']}: pre {rec['pre_state']} post {post}"))
             if rec["op"] == "reset" or rec["op"].startswith("info:"):
                 s = self.state()
                 if rec["outcome"] != "done" or s["state"] != "IDLE" or s["facade"] or s["spa"] or s["desc"]:
@@ -450,7 +454,7 @@ class Rig:
     async def start(self, op, stop):
         self.cur = {"deliveries": [], "op": short(op)}
         ctl = Ctl(stop)
-        rec = {"op": op, "events": [], "pre_state": self.man.spa_state.name, "interleaved": bool(self.pool)}
+        rec = {"op": op, "events": [], "pre_state": self.man.spa_state.name, "interleaved": bool(self.pool), "pre_spa": self.man._spa is not None}
         env = env_of(op)
         env.update(ctl=ctl, rec=rec, rig=self)
         task = asyncio.ensure_future(self._task(op, env))
